@@ -98,3 +98,31 @@ PROPS = {
         assumptions=ASSUME_COMMON + ["uninitialised reads that never influence an output are not detected (no MSan); copying during a call from another thread is a contract violation and not simulated"],
     ),
 }
+
+# ---- MANIFEST texts (bin/mkmanifest)
+_TECH = "deterministic simulation with fault injection: "
+_NOTE = "seeded sampling, not proof; trusted: the simulator's oracles and models, the compilers/sanitizers; DRED/OSCE/custom modes not built. "
+PROPS["C01"].update(
+    level_text="seeded search over simulated receiving sessions: real decoders (single, multistream, projection) fed live-encoder packets through a simulated hostile link (drop, dup, reorder, truncate, bit flips, splice, TOC swap, cross-session, structured garbage) with hostile call shapes and decoder ctl churn, under ASan + bounds + internal assertions, exact-size buffers, finite-output and return-code oracles, and an independent framing model deciding when decode must succeed",
+    level_note=_NOTE + "frame_size above one second is outside the claim",
+    technique=_TECH + "hostile-link receiver sessions under sanitizers, return-code / canary / framing-model oracles")
+PROPS["C02"].update(
+    level_text="seeded search over simulated encoder/decoder sessions (control-plane churn, MTU churn, FUZZING buggify decisions, replicas at other rates/channels/CPU levels); every packet checked for validity against the library parser and an independent framing model and for lock-step sample counts and final range on every replica",
+    level_note=_NOTE + "the reference-decoder clause is not covered (no RFC 6716 reference decoder offline)",
+    technique=_TECH + "seeded plans, lock-step replica oracle")
+PROPS["C05"].update(
+    level_text="seeded search over rate-control sessions: MTU collapses and recoveries, bitrate/VBR/CVBR/CBR churn between frames of all durations; exact-size output block, exact CBR size formula, BITRATE_MAX fill, multistream CBR constancy, calibrated constrained-VBR long-term mean, plus the full C02 validity/lock-step oracle on every packet produced under a capacity fault",
+    level_note=_NOTE + "CVBR long-term bound is calibrated (calib/thresholds.json) with a stated precondition",
+    technique=_TECH + "capacity faults on the encoder output path, exact size oracle + calibrated long-term rate oracle")
+PROPS["C07"].update(
+    level_text="seeded search over middlebox sessions: repacketizer cat/out/out_range, pad/unpad and multistream pad/unpad driven over a pool of live-encoder and synthetic packets with invalid offers, incompatible TOCs, >120 ms, bad ranges and too-small buffers; frame-list model, independent framing model and twin decoders as oracle",
+    level_note=_NOTE + "lifetime misuse of packet memory referenced by the repacketizer is outside the claim",
+    technique=_TECH + "middlebox sessions with rejected-operation atomicity, frame-list reference model")
+PROPS["C12"].update(
+    level_text="seeded search over object histories executed twice under different simulated process environments (heap fill, addresses, stack residue, bystanders) with state faults at arbitrary points (memcpy snapshot, migrate + scribble original, reset vs fresh); every twin must stay bit-identical at every later step",
+    level_note=_NOTE + "uninitialised reads that never influence an output are not detected",
+    technique=_TECH + "crash/restart-style state faults (snapshot, migrate, reset) with twin-equality oracle across two environments")
+PROPS["C16"].update(
+    level_text="seeded search over extension-carrying middlebox sessions: generate/parse/count/iterate round trips with capacity faults and corrupted padding, and carriage of extensions through repacketizer merges and splits against an extension-list model",
+    level_note=_NOTE + "the list<->bytes bijection itself is exercised at exploration strength only",
+    technique=_TECH + "capacity/corruption faults on the extension area and repacketizer carriage, extension-list reference model")
